@@ -97,7 +97,7 @@ Print Assumptions C12_quoted_entry_one_line.
 
 (* ---- added by bin/mkprops (batch 2) ---- *)
 From GoFlags Require Import Base.Str Base.Utf8 Golib.Strings Golib.Strconv Model.Types Model.Tag Model.Scan Model.Lookup Model.Convert Model.State Model.Closest Model.Help Model.Parse Model.Ini Model.Complete.
-From GoFlags Require Import Proofs.IniFileSpec.
+From GoFlags Require Import Proofs.IniFileSpec Proofs.C12Refuted.
 
 (* FILE LEVEL: the writer's output is the rendering of a structured document (section headers, entries, comments, blanks); Ok, Err and Panic agree *)
 Theorem C12_writer_output_is_a_line_document :
@@ -248,4 +248,105 @@ Theorem C12_file_round_trip_from_values :
                else []) (ini_groups root)).
 Proof. exact @C12_file_roundtrip_values. Qed.
 Print Assumptions C12_file_round_trip_from_values.
+
+(* RECORDED FINDING (KNOWN_FINDINGS.json): the full round-trip statement is false of the faithful model - witness: an int option with choices 007/8 given as --n=007 is written `N = 7`, which the reader rejects with ErrInvalidChoice *)
+Theorem C12_full_statement_refuted_by_choice_text :
+  exists (root : command) (r : rt) (orc : oracles) (text : str) (file : ini_file) 
+         (e : err),
+           root = c12_rootN /\
+           orc = ex_orc /\
+           tree_octxs root = [c12_ocN] /\
+           o_choices (oc_opt c12_ocN) = [s2l "007"; s2l "8"] /\
+           o_ty (oc_opt c12_ocN) = TScalar (KInt I0) /\
+           o_long (oc_opt c12_ocN) = s2l "n" /\
+           o_field (oc_opt c12_ocN) = s2l "N" /\
+           (forall (delim : str) (ht : rt -> str),
+            opt_set orc delim ht c12_ocN (Some (s2l "007")) c12_r0N = Ok (r, None)) /\
+           rt_vals r 0 = VInt 7 /\
+           (forall fid : nat, fid <> 0%nat -> rt_vals r fid = rt_vals c12_r0N fid /\ rt_fl r fid = oflags0) /\
+           (forall incd comd incc : bool, write_ini orc incd comd incc root r = Ok text) /\
+           text = lines_text ["[Application Options]"%string; "N = 7"%string; ""%string] /\
+           read_ini text = Ok file /\
+           file = [([], []); (s2l "Application Options", [ent "N" "7" false 2])] /\
+           e = EIni 2 (s2l "Invalid value `7' for option `--n'. Allowed values are: 007 or 8") /\
+           (forall (delim : str) (ht : rt -> str) (ignore_unknown : bool),
+            exists r' : rt,
+              ini_apply orc delim ht ignore_unknown false root file c12_r0N = Ok (r', Some e) /\
+              rt_vals r' 0 = VInt 0 /\ rt_vals r' 0 <> rt_vals r 0).
+Proof. exact @C12_roundtrip_refuted_by_choice_text. Qed.
+Print Assumptions C12_full_statement_refuted_by_choice_text.
+
+(* the same with IniIncludeDefaults for an option never given: `N = 0` is rejected *)
+Theorem C12_full_statement_refuted_by_include_defaults :
+  exists (root : command) (r : rt) (orc : oracles) (text : str) (file : ini_file) 
+         (e : err),
+           root = c12_rootN /\
+           orc = ex_orc /\
+           tree_octxs root = [c12_ocN] /\
+           o_choices (oc_opt c12_ocN) = [s2l "007"; s2l "8"] /\
+           o_ty (oc_opt c12_ocN) = TScalar (KInt I0) /\
+           r = c12_r0N /\
+           rt_vals r 0 = VInt 0 /\
+           rt_fl r 0 = oflags0 /\
+           (forall incc : bool, write_ini orc true false incc root r = Ok text) /\
+           text = lines_text ["[Application Options]"%string; "N = 0"%string; ""%string] /\
+           read_ini text = Ok file /\
+           file = [([], []); (s2l "Application Options", [ent "N" "0" false 2])] /\
+           e = EIni 2 (s2l "Invalid value `0' for option `--n'. Allowed values are: 007 or 8") /\
+           (forall (delim : str) (ht : rt -> str) (ignore_unknown : bool),
+            exists r' : rt, ini_apply orc delim ht ignore_unknown false root file c12_r0N = Ok (r', Some e)) /\
+           (forall comd incc : bool, write_ini orc false comd incc root r = Ok []) /\
+           (forall incc : bool,
+            write_ini orc true true incc root r =
+            Ok (lines_text ["[Application Options]"%string; "; N = 0"%string; ""%string])).
+Proof. exact @C12_roundtrip_refuted_by_include_defaults. Qed.
+Print Assumptions C12_full_statement_refuted_by_include_defaults.
+
+(* RECORDED FINDING: a map key with a line break spills over two lines; the reader fails with `malformed key=value` *)
+Theorem C12_full_statement_refuted_by_map_key_line_break :
+  exists (root : command) (r : rt) (orc : oracles) (text : str) (e : err),
+           root = c12_rootM /\
+           orc = ex_orc /\
+           tree_octxs root = [c12_ocM] /\
+           o_ty (oc_opt c12_ocM) = TMap KString KString /\
+           o_choices (oc_opt c12_ocM) = [] /\
+           o_long (oc_opt c12_ocM) = s2l "m" /\
+           o_field (oc_opt c12_ocM) = s2l "M" /\
+           (forall (delim : str) (ht : rt -> str),
+            opt_set orc delim ht c12_ocM (Some ([97; 10; 98] ++ s2l ":1")) c12_r0M = Ok (r, None)) /\
+           rt_vals r 0 = VMap false [(VStr [97; 10; 98], VStr (s2l "1"))] /\
+           (forall fid : nat, fid <> 0%nat -> rt_vals r fid = rt_vals c12_r0M fid /\ rt_fl r fid = oflags0) /\
+           (forall incd comd incc : bool, write_ini orc incd comd incc root r = Ok text) /\
+           text = s2l "[Application Options]" ++ [10] ++ s2l "M = a" ++ [10] ++ s2l "b:1" ++ [10; 10] /\
+           e = EIni 3 (s2l "malformed key=value (b:1)") /\ read_ini text = Err e.
+Proof. exact @C12_roundtrip_refuted_by_map_key_line_break. Qed.
+Print Assumptions C12_full_statement_refuted_by_map_key_line_break.
+
+(* the choice check rejects exactly the texts that are not literally one of the choices *)
+Theorem C12_choice_check_is_textual :
+  forall (orc : oracles) (delim : str) (ht : rt -> str) (oc : octx) (v : str) (r : rt),
+         let o := oc_opt oc in
+         let fid := o_fid o in
+         o_choices o <> [] ->
+         (~ In v (o_choices o) ->
+          opt_set orc delim ht oc (Some v) r =
+          Ok
+            (set_fl
+               (if (is_map (o_ty o) || is_slice (o_ty o)) && f_clearref (rt_fl r fid) then opt_empty o r else r)
+               fid (ValueSpec.set_flags (rt_fl r fid)),
+             Some
+               (EFlags ErrInvalidChoice
+                  (s2l "Invalid value `" ++
+                   v ++
+                   s2l "' for option `" ++
+                   octx_string delim oc ++ s2l "'. Allowed values are: " ++ allowed_text (o_choices o))))) /\
+         (In v (o_choices o) ->
+          opt_set orc delim ht oc (Some v) r = opt_set orc delim ht (ValueSpec.octx_no_choices oc) (Some v) r /\
+          (forall (r' : rt) (msg : str),
+           opt_set orc delim ht oc (Some v) r <> Ok (r', Some (EFlags ErrInvalidChoice msg)))) /\
+         ((exists (r' : rt) (msg : str),
+             opt_set orc delim ht oc (Some v) r = Ok (r', Some (EFlags ErrInvalidChoice msg))) <->
+          ~ In v (o_choices o)).
+Proof. exact @C12_choice_text_accepted_iff_choice. Qed.
+Print Assumptions C12_choice_check_is_textual.
 
